@@ -18,12 +18,17 @@ from ..core import REPO, ckey, digest, short
 from ..modes import Mode
 
 ID = "C05"
-RULE = ("one run = one shared object (Earley / rescaled Earley / IncrementalCKY / EarleyLM / rescaled "
-        "EarleyLM / CKYLM / BoolCFGLM earley+cky / CFG) on a swarm-generated grammar, driven by a seeded "
-        "history of 5-40 operations (extend, fork sibling, rewind, repeat, query kinds, evict, abort, "
-        "counter jump, long-cold); every query result is compared with a fresh object; a case is "
-        "non-trivial if the grammar generates at least one string and the history has >= 3 queries; "
-        "distinct = distinct (grammar, history) digests")
+RULE = ("one run = one shared object (Earley / rescaled Earley / IncrementalCKY / EarleyLM / rescaled EarleyLM / "
+        "CKYLM / BoolCFGLM earley+cky / the CFG object itself, or 2-3 of these built from ONE grammar object) on a "
+        "swarm-generated grammar (optionally already carrying library-generated names: binarize / "
+        "separate_terminals / separate_start / cnf applied first), driven by a seeded history of 5-40 operations: "
+        "extend, fork sibling, rewind, repeat, all query kinds (incl. p_next_async stepped by the harness, "
+        "p_next_seq, transformations and LM construction on the grammar object), evict, abort at a measured "
+        "fraction of the query's length, fresh-name counter jump, unrelated library activity in the same process "
+        "('noise'), coarse treesum, long-cold; every query result is compared with a fresh object built in a "
+        "separate pristine process; the user's grammar (rules, V, S) is snapshot-compared after every operation; "
+        "non-trivial = the grammar generates at least one string and the history has >= 3 queries; distinct = "
+        "distinct (grammar, history) digests")
 COMPONENTS = {
     "real": ["genlm.grammar parsers, LMs, CFG transformations, prefix-grammar composition (all real code)",
              "arsenal LocatorMaxHeap and builtin set/frozenset in the share of runs with the seam off"],
